@@ -85,7 +85,7 @@ func (c12Prop) Assumptions() []string {
 
 var c12Types = []string{"Flat", "Nested", "Ptrs", "Slices", "OneMap", "Timed", "Padded", "Omit", "Nulls", "PtrSlices", "NullPtrs", "Narrow"}
 
-var c12OpNames = []string{"build", "build", "register", "register", "decode", "decode", "decodeproj", "decodeproj", "encode", "encode", "readfile", "readfile", "closebanks", "schema", "fromstring", "decoderef", "decoderef", "parsetime", "parsetime", "encoder", "regshared", "regshared", "decodebad", "decodebad", "timelong", "timelong", "deepschema", "bankchurn"}
+var c12OpNames = []string{"build", "build", "register", "register", "decode", "decode", "decodeproj", "decodeproj", "encode", "encode", "readfile", "readfile", "closebanks", "schema", "fromstring", "decoderef", "decoderef", "parsetime", "parsetime", "encoder", "regshared", "regshared", "decodebad", "decodebad", "timelong", "timelong", "deepschema", "bankchurn", "unions", "unions"}
 
 func (c12Prop) Generate(seed uint64, idx int, tier string) *Plan {
 	r := NewRng(seed, uint64(idx)<<8|0x12)
@@ -116,7 +116,7 @@ func (c12Prop) Generate(seed uint64, idx int, tier string) *Plan {
 	if r.P(1, 8) {
 		// parallel burst (see C12Plan.Burst): few operation kinds, many repeats
 		pl.Burst = r.PickInt([]int{30, 100})
-		kinds := [][]string{{"register"}, {"parsetime"}, {"register", "build"}, {"parsetime", "encode"}, {"register", "parsetime"}, {"build", "schema"}, {"decode", "decodeproj"}, {"regshared"}, {"regshared", "build"}, {"decodebad"}, {"decodebad", "decode"}, {"timelong"}, {"timelong", "parsetime"}, {"deepschema"}, {"deepschema", "fromstring"}, {"fromstring"}, {"bankchurn"}, {"bankchurn"}, {"bankchurn", "decode"}}[r.Intn(19)]
+		kinds := [][]string{{"register"}, {"parsetime"}, {"register", "build"}, {"parsetime", "encode"}, {"register", "parsetime"}, {"build", "schema"}, {"decode", "decodeproj"}, {"regshared"}, {"regshared", "build"}, {"decodebad"}, {"decodebad", "decode"}, {"timelong"}, {"timelong", "parsetime"}, {"deepschema"}, {"deepschema", "fromstring"}, {"fromstring"}, {"bankchurn"}, {"bankchurn"}, {"bankchurn", "decode"}, {"unions"}}[r.Intn(20)]
 		if kinds[0] == "parsetime" {
 			pl.Burst = r.PickInt([]int{1000, 5000}) // a timestamp parse costs about a microsecond
 		}
@@ -533,6 +533,18 @@ type TimeLongs struct {
 	E *time.Time `json:"e"`
 }
 
+// Unions: the general union codec (any union that is not "null and one other").
+type Unions struct {
+	U int64  `json:"u"`
+	V *int64 `json:"v"`
+	W int64  `json:"w"`
+}
+
+const unionsSchema = `{"type":"record","name":"UN","fields":[` +
+	`{"name":"u","type":["long","int"]},` +
+	`{"name":"v","type":["null","long","int"]},` +
+	`{"name":"w","type":["int","long","int"]}]}`
+
 const timeLongsSchema = `{"type":"record","name":"TL","fields":[` +
 	`{"name":"a","type":{"type":"long","logicalType":"timestamp-micros"}},` +
 	`{"name":"b","type":{"type":"long","logicalType":"timestamp-millis"}},` +
@@ -565,6 +577,7 @@ type c12Env struct {
 	chunks      []ChunkSpec       // per goroutine
 	timeC       avro.Codec        // shared codec for TimeOnly
 	timeLongC   avro.Codec        // shared codec for TimeLongs
+	unionsC     avro.Codec        // shared codec for Unions
 	chans       []chan *avro.ResourceBank
 	ng          int
 }
@@ -809,6 +822,32 @@ func (env *c12Env) execOp(g int, op C12Op, alone bool) (res string) {
 		rb.ExtractResourceBank().Close()
 		_, off := out.T.Zone()
 		return fmt.Sprintf("time err=%v unixnano=%d off=%d", err, out.T.UnixNano(), off)
+	case "unions":
+		// the general union codec, shared: every branch selector in turn, decode and skip
+		var payload []byte
+		payload = ref.AppendLong(payload, int64(op.A%2))
+		payload = ref.AppendLong(payload, int64(op.B)*31+1)
+		vsel := int64(op.B % 3)
+		payload = ref.AppendLong(payload, vsel)
+		if vsel != 0 {
+			payload = ref.AppendLong(payload, int64(op.A)*17+2)
+		}
+		payload = ref.AppendLong(payload, int64(op.A%3))
+		payload = ref.AppendLong(payload, int64(op.B%1000))
+		var out Unions
+		rb := avro.NewReadBuf(payload)
+		err := env.unionsC.Read(rb, unsafe.Pointer(&out))
+		v := int64(-1)
+		if out.V != nil {
+			v = *out.V
+		}
+		left := rb.Len()
+		rb.ExtractResourceBank().Close()
+		rb2 := avro.NewReadBuf(payload)
+		serr := env.unionsC.Skip(rb2)
+		res := fmt.Sprintf("unions err=%v u=%d v=%d w=%d left=%d skip-err=%v skip-left=%d", err, out.U, v, out.W, left, serr, rb2.Len())
+		rb2.ExtractResourceBank().Close()
+		return res
 	case "bankchurn":
 		// banks taken from and returned to the pool in quick succession, three held
 		// at a time; while a bank is held, what this goroutine put into it is
@@ -1005,6 +1044,13 @@ func newC12Env(pl *C12Plan) (*c12Env, error) {
 		return nil, err
 	}
 	if env.timeLongC, err = tls.Codec(TimeLongs{}); err != nil {
+		return nil, err
+	}
+	uns, err := avro.SchemaFromString(unionsSchema)
+	if err != nil {
+		return nil, err
+	}
+	if env.unionsC, err = uns.Codec(Unions{}); err != nil {
 		return nil, err
 	}
 	for g := 0; g < env.ng; g++ {
